@@ -90,7 +90,7 @@ impl<S: TagHintSink> TagScanner<S> {
         } else {
             self.last_start_tag_name_hash = self.tag_name_hash;
 
-            let ns = context.tree_builder_simulator.start_tag_ns();
+            let ns = context.tree_builder_simulator.current_ns();
 
             context.output_sink.handle_start_tag_hint(name, ns)
         }
